@@ -18,7 +18,7 @@ Theorem C01_bare_identifier_partial :
     match rest with c :: _ => mem c word_chars = false | [] => True end ->
     p_rest p = n ++ rest ->
     run_terminal (PWord word_chars word_chars 1 0 false false true) p = IOk (advance (length n) p) (RStr n) [].
-Proof. intros. apply word_token; assumption. Qed.
+Proof. intros n rest p H1 H2 H3 H4. apply (word_token word_chars n rest p H1 H2 H3 H4). Qed.
 Print Assumptions C01_bare_identifier_partial.
 
 (* ... and the double-quoted spelling of any name (without quote and line break) is read as the same text *)
